@@ -246,8 +246,11 @@ def sess_c20(texts, groups):
         impl.do('mkfile %s %s' % (hexs(b'c20inc.cfg'), hexs(b'inc = 1;\n')))
         for text in texts:
             idx = []
-            for e in ('string', 'stream', 'chunked', 'file'):
-                if e == 'string':
+            for e in ('string', 'stream', 'chunked', 'eintr', 'file'):
+                if e == 'eintr':
+                    # the delivery is interrupted by a signal once, at the 1st..4th read call, in pieces of 7 / 4096 / unlimited bytes
+                    impl.do('read_eintr %d %d %s' % (rng.choice([7, 7, 4096, 0]), rng.range(1, 4), hexs(text)))
+                elif e == 'string':
                     impl.do('read_string ' + hexs(text))
                 elif e == 'stream':
                     impl.do('read_stream ' + hexs(text))
